@@ -95,6 +95,8 @@ def sanitize(name):
 
 def run_property(prop, tier, seed, only=None, jobs=None):
     t0 = time.time()
+    import shutil
+    shutil.rmtree(os.path.join(ROOT, 'replays', prop), ignore_errors=True)
     contracts.load_all()
     load_tasks()
     timeout_ms = 10000 if tier == 'quick' else 60000
